@@ -252,7 +252,7 @@ def run_threads(spec, res):
     from checks.c10_history import build_pool
     fam, version = spec['family'], spec['version']
     cls = xmlschema.XMLSchema10 if version == '1.0' else xmlschema.XMLSchema11
-    xsd = ALL_FAMILIES[fam]
+    xsd = D.family_xsd(fam, version)
     rng = env.rng_for(PROPERTY, spec['tier'], spec['seed'], fam, version, spec['part'])
     pool = [t for _, t, _ in build_pool(fam, rng)][:10]
     seq_schema = cls(xsd)
